@@ -151,7 +151,7 @@ pub fn c14_cotnc_at_a() {
 
 /// One-tailed normal correction: the parts that do not depend on the sampler's distribution —
 /// a coordinate inside (including both bounds) is returned unchanged without sampling and the call terminates.
-/// @verif anchor=CompleteOneTailedNormalCorrection::constrain termination=true bound="domain [-1, 2]; only coordinates already inside [a,b]; sampler not entered"
+/// @verif anchor=CompleteOneTailedNormalCorrection::constrain termination=true tier=thorough bound="domain [-1, 2]; only coordinates already inside [a,b]; sampler not entered"
 #[cfg_attr(kani, kani::proof)] #[cfg_attr(kani, kani::unwind(3))]
 pub fn c14_cotnc_inside() {
     let (a, b) = (-1.0f64, 2.0f64);
